@@ -478,7 +478,11 @@ def project_sampler(sc, run):
         return []
     full_rec = ref["full_rec"]
     fp = ref["full_pos"]
-    distinct = all(fp[i] != fp[j] or not fp[i] for i in range(len(fp)) for j in range(i + 1, len(fp)))
+    # no two chains produce the same draws (chains that never left a common start point have nothing to tell apart)
+    def stuck(t):
+        return len(set(t)) <= 1
+    distinct = all(fp[i] != fp[j] or not fp[i] or (stuck(fp[i]) and stuck(fp[j]))
+                   for i in range(len(fp)) for j in range(i + 1, len(fp)))
     out = [{"ev": "reset", "chains": new["chains"], "cores": new["cores"], "draws": new["draws"],
             "fullpos": fp, "distinct": distinct}]
     for e in run:
